@@ -321,10 +321,10 @@ theorem update_consistent (reads : Slot → List Slot) (L : List Slot)
     (hordered : ∀ l₁ n l₂, L = l₁ ++ n :: l₂ → ∀ m ∈ reads n, m ∉ l₂ ∧ m ≠ n)
     (s s' : LS) (hI : Inv s) (hD : NoDict s) (hC : Consistent reads s)
     (h : L.foldlM (refresh reads) s = .ok s') :
-    Consistent reads s' ∧ Inv s' ∧ Live s' := by
+    Consistent reads s' ∧ Inv s' ∧ Live s' ∧ NoDict s' := by
   have hP : PC reads L s := ⟨fun sl v hv => (hC sl v hv).1, fun n v hn _ _ => (hC n v hn).2⟩
-  obtain ⟨i1, _, p1⟩ := update_aux reads L hreads hplain hclosed hordered L [] s s' (by simp) hI hD hP h
+  obtain ⟨i1, d1, p1⟩ := update_aux reads L hreads hplain hclosed hordered L [] s s' (by simp) hI hD hP h
   have hC' : Consistent reads s' := fun sl v hv => ⟨p1.1 sl v hv, p1.2 sl v hv (by simp) (fun m _ => by simp)⟩
-  exact ⟨hC', i1, consistent_live reads s' hC' i1.slot⟩
+  exact ⟨hC', i1, consistent_live reads s' hC' i1.slot, d1⟩
 
 end Efp.Links
